@@ -283,8 +283,8 @@ func (p *Pkg) Var(name string) ast.Expr {
 	return vs[0]
 }
 
-// Eval folds a constant expression that occurs in this package (inside function fn when
-// local constants may be referenced; sc may be nil).
+// Eval folds a constant expression that occurs in this package; sc (may be nil) holds the
+// constants declared inside the enclosing function.
 func (p *Pkg) Eval(e ast.Expr, sc Scope) constant.Value {
 	return p.eval(e, p.fileOf(e), -1, sc, 0)
 }
@@ -569,8 +569,7 @@ func (p *Pkg) All(root ast.Node, pred func(ast.Node) bool) []ast.Node {
 	return hits
 }
 
-// Call returns the single call inside root whose callee prints as callee (e.g. "c.clock.After")
-// and, when argSrc is not empty, one of whose arguments prints as argSrc.
+// Call returns the single call inside root whose callee prints as callee (e.g. "notBefore.Add").
 func (p *Pkg) Call(root ast.Node, callee string) *ast.CallExpr {
 	return p.One(root, "call of "+callee, func(n ast.Node) bool {
 		c, ok := n.(*ast.CallExpr)
@@ -791,7 +790,8 @@ func (p *Pkg) StructTags(name, key string) [][2]string {
 	return out
 }
 
-// reflectTag: reflect.StructTag.Lookup without importing reflect's conventions loosely.
+// reflectTag: the value of key in a struct tag (the conventional `k:"v" k2:"v2"` format, as
+// reflect.StructTag.Lookup reads it).
 func reflectTag(tag, key string) (string, bool) {
 	for tag != "" {
 		tag = strings.TrimLeft(tag, " ")
@@ -888,9 +888,9 @@ func Auto(v constant.Value) Val {
 	return Z(v)
 }
 
-// SortedPairs orders a list of pairs by the Coq text of their first component (maps and switch
-// tables have no order of their own; the Coq side compares them as sets anyway).
-func SortedPairs(ps []Val) Val {
+// SortedPairs orders pairs by the Coq text of their first component (maps and switch tables have
+// no order of their own).
+func SortedPairs(ps []Val) []Val {
 	sort.SliceStable(ps, func(i, j int) bool { return ps[i].(pVal).a.Coq() < ps[j].(pVal).a.Coq() })
-	return lVal(ps)
+	return ps
 }
